@@ -22,7 +22,8 @@ func Split(label string, x uint64, max int) uint64
 // Concretize forks over up to n feasible values of x (chosen by the solver); afterwards x stays symbolic.
 func Concretize(label string, x uint64, n int) uint64
 
-// raw memory standing for physical / firmware memory. init: 0 = zero-filled, 1 = arbitrary content
+// raw memory standing for physical / firmware memory. init: 0 = zero-filled, 1 = arbitrary content,
+// +2 = on native replay place the region so that its first inaccessible byte starts an unmapped page
 func Region(label string, base, capacity uintptr, init int) []byte
 func Limit(label string, n uintptr)
 
